@@ -102,7 +102,7 @@ def build_circuit(d: dict):
     # pickle round trip (results coming back from the pebble process pool) produce.  The public API cannot tell
     # such a circuit from the original, so every property must hold for it as well; code that compares gate
     # types with `is` breaks exactly there.
-    detach = DETACH_TYPES and zlib.crc32(repr(d['gates']).encode()) % 3 == 0
+    detach = DETACH_TYPES and zlib.crc32(repr([(k, t, list(ops)) for k, t, ops in d['gates']]).encode()) % 3 == 0
     types = {}
 
     def gtype(t):
